@@ -470,6 +470,17 @@ package zygo
 //@ C01 nopanic
 //@ C01 ensures an-unset-selector-is-an-error: old(x.Select == nil || x.Container == nil) && env != nil ==> r1 != nil
 
+// the parsing iterator never sends a reply to a consumer that has left the loop (Go's range-over-
+// function panics if it does): a pause point deep in the parse notices the consumer leaving (its
+// yield returns false) and unwinds with an End value, which is also what a finished text gives
+//@ func (*Parser).ParsingIter$1
+//@ C01,C13 assert the-consumer-is-still-there @before call yield[*]: !stopped
+// (read "text") reads a complete text: it is terminated like a loaded text, so that its last
+// atom is delivered, and reading nothing gives the nil value, not a Go nil
+//@ func ReadFunction
+//@ C01,C13 assert text-is-terminated @before call ParsingIter[0]: len(env.parser.lexer.next) == 1 || (len(env.parser.lexer.next) == 0 && env.parser.lexer.stream != nil && terminated)
+//@ ghost terminated := false @entry
+//@ ghost terminated := true @after call NewInput[0]
 // mdef: every target slot is filled with a symbol before the value is compiled; the bind
 // instruction hands each one to BindSymbol, which dereferences it
 //@ func (*Generator).GenerateMultiDef
